@@ -102,7 +102,7 @@ fn check<P: Property>(tier: Tier, o: &Opts) -> i32 {
     if let Some(r) = o.runs {
         batch.n_random = r;
     }
-    let agg = batch.execute(o.workers, 120);
+    let agg = batch.execute(o.workers, 30);
     let wall_run = t0.elapsed().as_secs_f64();
 
     // determinism self-check: re-execute a spread of runs and compare the digest contribution
@@ -247,7 +247,7 @@ fn digest<P: Property>(tier: Tier, o: &Opts) -> i32 {
     if let Some(r) = o.runs {
         batch.n_random = r;
     }
-    let agg = batch.execute(o.workers, 120);
+    let agg = batch.execute(o.workers, 30);
     let mut f = 0u64;
     for (i, x) in agg.faults.iter().enumerate() {
         f = f.wrapping_mul(31).wrapping_add(*x).wrapping_add(i as u64);
